@@ -27,6 +27,7 @@ func newTaskMerger() *taskMerger {
 func (*taskMerger) HasNewInfo(task peertask.Task, existing []*peertask.Task) bool {
 	haveSize := false
 	isWantBlock := false
+	sendsBlock := false
 	for _, et := range existing {
 		etd := et.Data.(*taskData)
 		if etd.HaveBlock {
@@ -36,11 +37,21 @@ func (*taskMerger) HasNewInfo(task peertask.Task, existing []*peertask.Task) boo
 		if etd.IsWantBlock {
 			isWantBlock = true
 		}
+
+		if etd.IsWantBlock && etd.HaveBlock {
+			sendsBlock = true
+		}
+	}
+
+	// A want-block whose block we have is only covered by a task that will
+	// actually send the block, not by a DONT_HAVE plus a HAVE for the same CID.
+	newTaskData := task.Data.(*taskData)
+	if newTaskData.IsWantBlock && newTaskData.HaveBlock && !sendsBlock {
+		return true
 	}
 
 	// If there is no active want-block and the new task is a want-block,
 	// the new task is better
-	newTaskData := task.Data.(*taskData)
 	if !isWantBlock && newTaskData.IsWantBlock {
 		return true
 	}
